@@ -171,3 +171,36 @@ def pair_label_set(seq, sst):
         if j is not None and i < j:
             pairs.add((names[i], names[j]))
     return pairs
+
+
+def rotations(seq, sst):
+    """all n strand rotations of (names with '+', structure chars with '+'), computed from the partner table"""
+    seq, sst = list(seq), list(sst)
+    strands = parse_struct(''.join(sst))
+    word = ''.join(strands)
+    part = ref_partner(word)
+    names = [x for x in seq if x != '+']
+    lens = [len(s) for s in strands]
+    starts = [sum(lens[:i]) for i in range(len(lens))]
+    n = len(strands)
+    out = []
+    for k in range(n):
+        order = list(range(k, n)) + list(range(0, k))
+        newpos = {}
+        p = 0
+        for si in order:
+            for d in range(lens[si]):
+                newpos[starts[si] + d] = p; p += 1
+        rs, rt = [], []
+        for j, si in enumerate(order):
+            if j:
+                rs.append('+'); rt.append('+')
+            for d in range(lens[si]):
+                i = starts[si] + d
+                rs.append(names[i])
+                if part[i] is None:
+                    rt.append('.')
+                else:
+                    rt.append('(' if newpos[i] < newpos[part[i]] else ')')
+        out.append((tuple(rs), tuple(rt)))
+    return out
